@@ -25,9 +25,12 @@ def auth_record(a):
                                                 signature=a["signature"], user_handle=a.get("user_handle")))
 
 
-def run_auth(a, e, form="record"):
-    """e: challenge, rp_id, origin (str|list), public_key, stored_count, require_uv"""
-    if form == "record":
+def run_auth(a, e, form="record", cred_obj=None):
+    """e: challenge, rp_id, origin (str|list), public_key, stored_count, require_uv.
+    `cred_obj`: pass this very object as the credential (to present one object to several calls, as an RP would)"""
+    if cred_obj is not None:
+        cred = cred_obj
+    elif form == "record":
         cred = auth_record(a)
     elif form == "dict":
         cred = core.to_auth_json(a)
@@ -122,10 +125,12 @@ def reg_record(c):
 ALL_ALGS = [-7, -8, -36, -37, -38, -39, -257, -258, -259, -65535]
 
 
-def run_reg(c, e, form="record"):
+def run_reg(c, e, form="record", cred_obj=None):
     """e: challenge, rp_id, origin, require_up, require_uv, algs (list|None), roots {fmt: [pem]}"""
     import json
-    if form == "record":
+    if cred_obj is not None:
+        cred = cred_obj
+    elif form == "record":
         cred = reg_record(c)
     elif form == "dict":
         cred = core.to_reg_json(c)
